@@ -455,3 +455,15 @@ M('C12', 'separator-changed', SB, 'propensity_annotation_string += " "+k + "=" +
 M('C12', 'timestamp-in-export', SB, "    model.setId('bioscrape_generated_model_' + str(np.random.randint(1e6)))", "    model.setId('bioscrape_generated_model_' + str(np.random.randint(1e6)))\n    model.setName(str(time.time()))", 'fire', 'R12.4')
 M('C12', 'dummy-param-value-lost', T, "                self.set_parameter(dummy_var, val)\n", "", 'fire', 'R12.3-forwarding/dummy-parameters')
 M('C12', 'additive-rule-unwritable', SB, "    if rule_type == 'assignment' or rule_type == 'additive':", "    if rule_type == 'assignment':", 'fire', 'R12.2-exhaustive/rule/additive')
+
+# ------------------------------------------------------------------ C15
+M('C15', 'revert-transpose-list', IS, "                data_i = np.array(data_list).T\n", "                data_i = np.array(data_list)\n", 'fire', 'R15.1-axis-alignment/list-of-frames/several')
+M('C15', 'revert-transpose-single', IS, "                data = np.array(data_list).T\n", "                data = np.array(data_list)\n", 'fire', 'R15.1-axis-alignment/single-frame/several')
+M('C15', 'final-reshape-order', IS, "            data = np.reshape(data, (N,T,M))\n            if self.debug:", "            data = np.reshape(data, (N,M,T))\n            if self.debug:", 'fire', 'R15.1-axis-alignment/list-of-frames')
+M('C15', 'cost-compares-wrong-species', 'bioscrape/inference.pyx', "                    dif = measurements[n, t, i] - ans[t,self.meas_indices[i]]\n                    if dif < 0:\n                        dif = -dif\n                    error += dif**self.norm_order\n\n        error = error**(1./self.norm_order)\n\n        if np.isnan(error):\n            return -np.inf\n        else:\n            return -error",
+  "                    dif = measurements[n, t, i] - ans[t,i]\n                    if dif < 0:\n                        dif = -dif\n                    error += dif**self.norm_order\n\n        error = error**(1./self.norm_order)\n\n        if np.isnan(error):\n            return -np.inf\n        else:\n            return -error", 'fire', 'R15.3-cost-formula/DeterministicLikelihood')
+M('C15', 'defaults-not-restored', PI, "            # Reset to default\n            self.LL_det.set_init_params(self.default_parameters)\n", "", 'fire', 'R15.5-function-of-theta/DeterministicInference')
+M('C15', 'defaults-alias', PI, "        self.default_parameters = dict(M.get_parameter_dictionary())", "        self.default_parameters = M.get_parameter_dictionary()", 'fire', 'R15.5-function-of-theta/default-parameters-copy')
+M('C15', 'prior-not-added', PI, "            ln_prob = lp + LL_det_cost", "            ln_prob = LL_det_cost", 'fire', 'R15.5-function-of-theta/DeterministicInference')
+M('C15', 'meas-index-by-position', 'bioscrape/inference.pyx', "        for i in range(self.M):\n            self.meas_indices[i] = self.m.get_species_index(species_list[i])", "        for i in range(self.M):\n            self.meas_indices[i] = i", 'fire', 'R15.2-name-alignment/DeterministicLikelihood')
+M('C15', 'silent-stack-axis', IS, "                data_i = np.array(data_list).T\n", "                data_i = np.stack(data_list, axis = 1)\n", 'silent')
